@@ -9,10 +9,12 @@ Definition key_min (l : list Z) : Z := fold_left Z.min (map F32.key l) (F32.key 
 Definition key_max (l : list Z) : Z := fold_left Z.max (map F32.key l) (- F32.key F32.pinf).
 
 (** 2001: vectors, k, metric, maxIter, returned-nil flag, centroids, mapping, input-changed flag,
-    second-run-differs flag *)
+    second-run-differs flag, settled flag (the implementation, allowed one more iteration, answers the same:
+    its own witness that the run converged -- every vector must then sit with its first nearest centroid,
+    evaluated on the implementation's centroids) *)
 Definition chk_kmeans : P (list Z) :=
   vs <- pvecs ;; k <- pz ;; mz <- pz ;; it <- pz ;; isnil <- pbool ;; cents <- pvecs ;; mapping <- pzs ;;
-  changed <- pbool ;; nondet <- pbool ;;
+  changed <- pbool ;; nondet <- pbool ;; settled <- pbool ;;
   let m := metric_of_Z mz in
   let n := Z.of_nat (length vs) in
   match kmeans vs k m it with
@@ -36,6 +38,7 @@ Definition chk_kmeans : P (list Z) :=
                    end in
       let specb := negb isnil && (Z.of_nat (length cents) =? kk) && (Z.of_nat (length mapping) =? n) &&
                    forallb (fun a => (0 <=? a) && (a <? kk)) mapping && finite && inbox &&
+                   (negb settled || list_eqb mapping (map (fun v => nearest m v cents) vs)) &&
                    negb changed && negb nondet in
       ret (verdict exact specb [Z.of_nat (length mc); if conv then 1 else 0])
   end.
